@@ -49,3 +49,58 @@ def color_ui_always_hides_prompt_records_in_rebased_notes():
         return s.kinds()
     finally:
         s.destroy()
+
+
+def global_option_together_with_a_subdirectory():
+    """D76 (fixed): `cd sub && git -c some.key=value commit` (likewise `git -C sub -c k=v commit` and `git -C repo -C sub commit`): the
+    commit's note came out empty and the agent's lines were blamed on a person. Only an empty global-option list or exactly one `-C`
+    was normalised to the work-tree root; with anything else the internal git calls ran in the sub-directory with root-relative
+    pathspecs, which matched nothing."""
+    import os
+    kinds_all = []
+    for variant in ("subdir-c", "C-sub-c", "C-C"):
+        s = Script("d76" + variant, files=1)
+        try:
+            b = [s.line("human") for _ in range(3)]
+            os.makedirs(os.path.join(s.w.repo, "sub"), exist_ok=True)
+            s.human_write("sub/f.txt", b); s.commit_all("init")
+            s.ai_write("S1", "sub/f.txt", b + [s.line("S1"), s.line("S1")])
+            sub = os.path.join(s.w.repo, "sub")
+            s.g("add", "-A")
+            if variant == "subdir-c":
+                s.g("-c", "x.y=z", "commit", "-q", "-m", "c", repo=sub)
+            elif variant == "C-sub-c":
+                s.g("-C", sub, "-c", "x.y=z", "commit", "-q", "-m", "c", repo=s.w.root)
+            else:
+                s.g("-C", s.w.repo, "-C", "sub", "commit", "-q", "-m", "c", repo=s.w.root)
+            c = s.head()
+            s.check_notes("w")
+            s.check_commit_exact(c, "w", rule="C12")
+            kinds_all += [k + "@" + variant for k in s.kinds()[0]]
+        finally:
+            s.destroy()
+    return sorted(set(kinds_all)), kinds_all[:6]
+
+
+def show_untracked_files_no_hides_agent_created_file():
+    """D77 (fixed): with status.showUntrackedFiles=no in the user's configuration a file an agent has just created (still untracked) was
+    invisible to the checkpoint's `git status`: the commit's note listed nothing and the lines were blamed on a person."""
+    from ..engine import Scenario
+
+    class S2(Script):
+        def __init__(self, name, **p):
+            prof = dict(hostile_content=False, decoys=False, sessions=3, files=1, human_ckpt_rate=0.0)
+            prof.update(p)
+            Scenario.__init__(self, "W" + name, 0, 0, prof, world_kwargs=dict(gitconfig_extra="[status]\n\tshowUntrackedFiles = no\n"))
+    s = S2("d77")
+    try:
+        s.human_write("f.txt", [s.line("human") for _ in range(3)]); s.commit_all("init")
+        s.ai_write("S1", "new.txt", [s.line("S1"), s.line("S1")])
+        s.commit_all("agent creates a file")
+        c = s.head()
+        s.check_notes("w")
+        s.check_commit_exact(c, "w", rule="C12")
+        s.check_blame_tip("w", rule="C12")
+        return s.kinds()
+    finally:
+        s.destroy()
